@@ -142,7 +142,8 @@ Colls(S) ==                                   \* raw collections over the elemen
                                             k2 \in {N("str", "__class__", <<>>), N("str", "name", <<>>)}, v1 \in {N("bool", "True", <<>>)},
                                             v2 \in {N("str", "m1.T", <<>>), N("str", "A", <<>>)}}
 Raw1 == Atoms \cup Unsupported \cup Colls(SmallAtoms \cup Unsupported)
-LeafTasks == {Build(ty, <<a>>) : ty \in {"m1.T", "m2.T", "m1.TX"}, a \in {N("int", "1", <<>>), N("str", "a", <<>>)}}
+LeafTasks == {Build(ty, <<a>>) : ty \in {"m1.T", "m2.T", "m1.TX"},
+                                 a \in {N("int", "1", <<>>), N("float", "1.0", <<>>), N("bool", "True", <<>>), N("str", "a", <<>>)}}
 Raw2 == Raw1 \cup LeafTasks \cup Colls(LeafTasks \cup {N("int", "1", <<>>)})
         \cup {N("tuple", "", <<c>>) : c \in Colls({N("int", "1", <<>>), N("enum", "me.E1.A", <<>>)} \cup
                                                    {Build("m1.T", <<N("int", "1", <<>>)>>)})}
